@@ -3,7 +3,7 @@
    process into a supervisor that forks a worker; the worker processes items sequentially and publishes
    its progress in shared memory.  When the worker dies, the supervisor prints one marker line for the
    item it died in ("\x01E <exit code>" / "\x01S <signal>" / "\x01T" for the per-item alarm) and forks a
-   new worker for the remaining items; after $C17_DEATHS (default 100) dead workers it prints "\x01X" and stops
+   new worker for the remaining items; after $C17_DEATHS (default 100) dead workers or 3 items that hit the per-item limit of 5 s CPU time it prints "\x01X" and stops
    (the remaining items are reported as not run).  Nothing here touches the values under test. */
 #include <stdint.h>
 #include <stdio.h>
@@ -11,6 +11,7 @@
 #include <signal.h>
 #include <unistd.h>
 #include <sys/mman.h>
+#include <sys/time.h>
 #include <sys/wait.h>
 
 static volatile int64_t *shared = NULL;
@@ -25,7 +26,7 @@ int64_t c17_naechster(int64_t n) {
 			_exit(99);
 		}
 		shared[0] = 0;
-		long deaths = 0, budget = 100;
+		long deaths = 0, budget = 100, timeouts = 0;
 		const char *bs = getenv("C17_DEATHS");
 		if (bs && *bs) budget = atol(bs);
 		for (;;) {
@@ -48,15 +49,16 @@ int64_t c17_naechster(int64_t n) {
 			if (WIFEXITED(st) && WEXITSTATUS(st) == 0 && shared[0] >= n) {
 				_exit(0);
 			}
-			if (WIFSIGNALED(st) && WTERMSIG(st) == SIGALRM) {
+			if (WIFSIGNALED(st) && (WTERMSIG(st) == SIGALRM || WTERMSIG(st) == SIGPROF)) {
 				printf("\n\001T\n");
+				timeouts++;
 			} else if (WIFSIGNALED(st)) {
 				printf("\n\001S %d\n", WTERMSIG(st));
 			} else {
 				printf("\n\001E %d\n", WEXITSTATUS(st));
 			}
 			shared[0]++;
-			if (++deaths >= budget) { /* the remaining items are reported as not run */
+			if (++deaths >= budget || timeouts >= 3) { /* the remaining items are reported as not run */
 				printf("\001X\n");
 				fflush(stdout);
 				_exit(0);
@@ -72,6 +74,9 @@ int64_t c17_naechster(int64_t n) {
 		fflush(stdout);
 		_exit(0);
 	}
-	alarm(10);
+	/* per-item limit: 5 s of CPU time (the machine may be heavily loaded), 120 s of wall time as a backstop */
+	struct itimerval tv = {{0, 0}, {5, 0}};
+	setitimer(ITIMER_PROF, &tv, NULL);
+	alarm(120);
 	return shared[0];
 }
